@@ -110,7 +110,8 @@ def compare_scenario(ctx, pid, scn, sr, inputs_list, concs, report):
             "contracts": {hex(a): c.hex() for a, c in scn.contracts.items()}, "nargs": scn.nargs, "static": scn.static,
             "selector": scn.selector.hex(),
             "inputs": {"args": [hex(v) for v in inp.args], "caller": hex(inp.caller), "origin": hex(inp.origin), "value": hex(inp.value),
-                       "balances": {hex(a): hex(v) for a, v in inp.balances.items()}, "baldefault": hex(inp.baldefault)},
+                       "balances": {hex(a): hex(v) for a, v in inp.balances.items()}, "baldefault": hex(inp.baldefault),
+                       "storage": {f"{a:#x}:{sl}": hex(v) for (a, sl), v in inp.storage.items()}},
             "reference_evm": conc.raw, "config": sr_cfg(sr),
         }
         if covering:
@@ -189,7 +190,7 @@ def compare_scenario(ctx, pid, scn, sr, inputs_list, concs, report):
 def sr_cfg(sr):
     o = sr.sevm.options
     return {"loop": o.loop, "solver_timeout_branching": o.solver_timeout_branching, "symbolic_jump": o.symbolic_jump,
-            "storage_layout": o.storage_layout}
+            "storage_layout": o.storage_layout, "symbolic_storage": sr.symbolic_storage}
 
 
 def choose_inputs(ctx, scn, sr, n_random, pool):
@@ -203,8 +204,17 @@ def choose_inputs(ctx, scn, sr, n_random, pool):
             out.append(i)
             ctx.count("input:" + tag)
 
+    def with_storage(i):
+        # symbolic-storage scenarios: arbitrary initial values of the scalar slots the programs use
+        if sr.symbolic_storage:
+            for a in scn.contracts:
+                for slot in range(8):
+                    if rng.random() < 0.5:
+                        i.storage[(a, slot)] = rng.choice([1, 2, 3, 7, 9, 0xFF, 1 << 255, rng.randrange(D.W)])
+        return i
+
     for _ in range(n_random):
-        add(D.random_inputs(rng, scn, pool), "random")
+        add(with_storage(D.random_inputs(rng, scn, pool)), "random")
     # boundary of the documented balance assumption, every scenario: the caller / the executing account holds exactly
     # 2^128 wei and every other account nothing (total supply still within the assumption)
     base = D.random_inputs(rng, scn, pool)
@@ -212,7 +222,7 @@ def choose_inputs(ctx, scn, sr, n_random, pool):
     for rich in (base.caller, D.MAIN):
         bal = {a: 0 for a in accts}
         bal[rich] = 1 << 128
-        add(D.Inputs(list(base.args), base.caller, base.origin, 0, bal, 0), "boundary-balance")
+        add(with_storage(D.Inputs(list(base.args), base.caller, base.origin, 0, bal, 0)), "boundary-balance")
     # solver-found inputs (z3 as a search aid) under a wall-clock budget per scenario
     used = ctx.extra.setdefault("solver_wall_s", 0.0)
     total = SOLVER_TOTAL_S[0 if ctx.tier == "quick" else 1]
